@@ -42,9 +42,11 @@ def cells(tier):
             out.append(dict(rel="conjugate" if a * b < 0 and abs(a) == abs(b) else "sameW", obs=f"{kind}_{flav}", nf=nf, pto=pto,
                             scheme=sch, ZMq=tuple(bool(z) for z in zm), pids=(a, b)))
     # D: equal-charge exchange in massless schemes
-    for kind, flav, nf, proc, pid, pto in itertools.product(cm.KINDS, ["light", "total"], [3, 4, 5, 6], ["EM", "NC"],
-                                                            [11, -11, 12], [0, 3]):
-        if q and (nf + pto + len(kind) + len(flav) + abs(pid)) % 4:
+    for kind, flav, nf, proc, pid, pto in itertools.product(cm.KINDS, ["light", "total", "charm", "bottom"], [3, 4, 5, 6], ["EM", "NC"],
+                                                            [11, -11, 12], [0, 2, 3]):
+        if flav in ("charm", "bottom") and nf < {"charm": 4, "bottom": 5}[flav]:
+            continue  # massless heavy-tagged observables exist only above their threshold
+        if q and (nf + pto + len(kind) + len(flav) + abs(pid)) % 4 and not (flav == "charm" and nf == 5 and pid == 11 and kind in ("F2", "F3")):
             continue
         if kind == "g1" and pto == 3:
             continue
@@ -112,9 +114,10 @@ def pairs_for(cell, P, Q2, E=None):
         ks = cm.run_combiner(P, obs=cell["obs"], process=cell["process"], pid=cell["pid"], Q2=Q2, scheme=cell["scheme"],
                              nf=cell["nf"], ZMq=cell["ZMq"], pto=cell["pto"], pto_evol=min(cell["pto"], 2))
         out = []
+        tagged = {"charm": 4, "bottom": 5}.get(cell["obs"].split("_")[1])
         for i, k in enumerate(ks):
             for a, b in EQUAL_CHARGE:
-                if b > cell["nf"]:
+                if b > cell["nf"] or tagged in (a, b):
                     continue
                 for s in (1, -1):
                     out.append((f"k{i}:{type(k.coeff).__name__}[{s*a}<->{s*b}]", k.partons.get(s * a, 0), k.partons.get(s * b, 0)))
